@@ -48,7 +48,6 @@ type w18site struct {
 	noClose       bool
 }
 
-
 var w18rid = []byte{0x80, 0, 0, 1}
 
 func w18sites() []w18site {
